@@ -170,6 +170,8 @@ fn main() {
                     "c11cb" => { let h = gens::c03(&mut rng, len); gens::with_reloads(&mut rng, h, "cb", "r1") }
                     "c11thr" => { let h = gens::c07(&mut rng, len); let h = gens::with_reloads(&mut rng, h, "flow", "r1"); gens::with_reloads(&mut rng, h, "hot", "r1") }
                     "c07" => gens::c07(&mut rng, len),
+                    "c06lru" => gens::c06lru(&mut rng, len),
+                    "c07lru" => gens::c07lru(&mut rng, len),
                     p => panic!("no generator for {}", p),
                 };
                 out.put_all(&w.exec(&h));
